@@ -266,6 +266,9 @@ func (c *Controller) ReleaseIPs(req *restful.Request, resp *restful.Response) {
 		var appTypePrefix string
 		if temp.AppType == "" {
 			appTypePrefix = util.StatefulsetPrefixKey
+		} else if temp.AppType == util.NoRefAppName {
+			// pods without owner references are listed with appType "NULL", see util.FormatKey
+			appTypePrefix = util.NoRefAppTypePrefix
 		} else {
 			appTypePrefix = util.GetAppTypePrefix(temp.AppType)
 		}
